@@ -44,6 +44,7 @@ type Violation struct {
 	Decisions []int               `json:"decisions"`
 	Schedule  []int               `json:"schedule,omitempty"`
 	Note      string              `json:"note,omitempty"`
+	Sites     []string            `json:"sites,omitempty"`
 }
 
 type HarnessResult struct {
@@ -100,6 +101,7 @@ type Engine struct {
 	crossSolvers   []SolverKind
 	crossSeen      map[string]bool
 	replay         *Violation
+	debugSites     bool
 }
 
 type workItem struct {
@@ -243,6 +245,8 @@ type Path struct {
 	violations                []Violation
 	increasons                []string
 	schedule                  []int
+	curSite                   string
+	siteLog                   []string
 }
 
 type loopKey struct {
@@ -250,12 +254,10 @@ type loopKey struct {
 	instr ssa.Instruction
 }
 
+// vars lists every SMT variable of this path (harness inputs and uninterpreted-function symbols): cached models must
+// assign all of them, otherwise evaluating a condition under the cached model would silently default them to 0.
 func (p *Path) vars() []*Term {
-	vs := make([]*Term, 0, len(p.nondet))
-	for _, n := range p.nondet {
-		vs = append(vs, n.v)
-	}
-	return vs
+	return p.tt.vars
 }
 
 func (p *Path) flushPC() {
@@ -304,6 +306,9 @@ func (p *Path) decide(cond *Term) bool {
 	idx := p.pos
 	p.pos++
 	p.symDecisions++
+	if p.e.verbose || p.e.debugSites {
+		p.siteLog = append(p.siteLog, p.curSite)
+	}
 	if idx < len(p.prefix) {
 		d := p.prefix[idx]
 		p.trace = append(p.trace, d)
@@ -452,6 +457,7 @@ func (p *Path) recordViolation(kind, msg string, m Model, note string) {
 	p.violations = append(p.violations, Violation{
 		Harness: p.e.cfg.Name, Pkg: p.e.cfg.Pkg, Kind: kind, Msg: msg,
 		Values: p.valuesFromModel(m), Decisions: append([]int{}, p.trace...), Schedule: append([]int{}, p.schedule...), Note: note,
+		Sites: append([]string{}, p.siteLog...),
 	})
 }
 
